@@ -32,16 +32,21 @@ def main(argv):
         return EXIT_BROKEN
 
 
+def gen_all(tier):
+    """Generated harness modules are part of the injected scratch copy whatever property is checked."""
+    for p in PROPS:
+        try:
+            m = load_prop(p)
+        except ModuleNotFoundError:
+            continue
+        if hasattr(m, "generate"):
+            m.generate(tier)
+
+
 def setup():
     """Warm the Kani build cache (dependencies of the annotated crates) and Verus."""
     with scratch.Lock():
-        for p in PROPS:
-            try:
-                mod = load_prop(p)
-            except ModuleNotFoundError:
-                continue
-            if hasattr(mod, "generate"):
-                mod.generate("quick")
+        gen_all("quick")
         scratch.prepare()
         crates = set()
         for p in PROPS:
@@ -68,8 +73,7 @@ def check(pid, tier, only=None):
     known = findings.load(pid)
     violations, broken, records, kani_meta = [], [], [], []
     with scratch.Lock():
-        if hasattr(mod, "generate"):
-            mod.generate(tier)
+        gen_all(tier)
         obs = mod.obligations(tier)
         if only:
             subs = only.split(",")
@@ -164,7 +168,7 @@ def triage_kani(pid, o, r, info, known):
     os.makedirs(os.path.join(VERIF, "replays"), exist_ok=True)
     path = os.path.join(VERIF, "replays", "%s.json" % o["name"].replace("/", "__"))
     rep = {"property": pid, "obligation": o["name"], "engine": "kani", "crate": o["crate"], "harness": o["harness"],
-           "module": o["module"], "clause": o.get("clause", ""), "failed_checks": r.failed}
+           "module": o["module"], "modname": o.get("modname", "verif_kani"), "clause": o.get("clause", ""), "failed_checks": r.failed}
     test_text, test_name, decoded, out = kani_run.counterexample(o["crate"], o["harness"])
     reproduced = False
     if test_text:
@@ -199,8 +203,9 @@ def replay(path):
         print(json.dumps({k: rep.get(k) for k in ("obligation", "clause", "verifier_output", "note")}, indent=1))
         return EXIT_VIOLATION
     with scratch.Lock():
+        gen_all("quick")
         info = scratch.prepare()
-        entry = next(m for m in info["inject"]["module"] if m["file"] == rep["module"])
+        entry = next(m for m in info["inject"]["module"] if m["file"] == rep["module"] and m.get("name", "verif_kani") == rep.get("modname", "verif_kani"))
         pb = kani_run.playback(rep["crate"], entry, rep["playback_test"], rep["playback_name"])
     print(pb["native_output"])
     print("replay of %s: %s" % (rep["obligation"], "REPRODUCED" if pb["reproduced"] else ("passes" if pb["passed"] else "inconclusive")))
